@@ -124,6 +124,30 @@ impl<'a> RuleDeclaredEnumeratedValues<'a> {
 impl Visitor<Diagnostic> for RuleDeclaredEnumeratedValues<'_> {
     type Value = ();
 
+    fn visit_enumeration_declaration(
+        &mut self,
+        node: &EnumerationDeclaration,
+    ) -> Result<Self::Value, Diagnostic> {
+        // The default value of an enumeration declaration must be one of the
+        // values of that enumeration (or of the enumeration it renames).
+        if let Some(value) = &node.spec_init.default {
+            let defined_values = match &node.spec_init.spec {
+                EnumeratedSpecificationKind::Values(values) => &values.values,
+                EnumeratedSpecificationKind::TypeName(name) => {
+                    self.find_enum_declaration_values(name)?
+                }
+            };
+            if !defined_values.iter().any(|v| v.value == value.value) {
+                return Err(Diagnostic::problem(
+                    Problem::EnumValueNotDefined,
+                    Label::span(value.span(), "Expected value in enumeration"),
+                )
+                .with_context_id("value", &value.value));
+            }
+        }
+        node.recurse_visit(self)
+    }
+
     fn visit_enumerated_initial_value_assignment(
         &mut self,
         init: &EnumeratedInitialValueAssignment,
